@@ -67,6 +67,31 @@ fn project(reply: &Value, creqs: &[CReq]) -> Value {
             break;
         }
     }
+    // a reply that carries a token of another connection is a leak between connections
+    if req == 0 {
+        if let Some(p) = txt.find("x") {
+            let _ = p;
+        }
+        let own_salt = creqs.first().map(|c| c.tok.split('x').nth(1).unwrap_or("").to_string()).unwrap_or_default();
+        let bytes = txt.as_bytes();
+        let mut i = 0;
+        while i + 2 < bytes.len() {
+            // token shape: t<digits>x<alnum>
+            if bytes[i] == b't' && bytes[i + 1].is_ascii_digit() {
+                let mut k = i + 1;
+                while k < bytes.len() && bytes[k].is_ascii_digit() { k += 1; }
+                if k < bytes.len() && bytes[k] == b'x' {
+                    let mut e = k + 1;
+                    while e < bytes.len() && bytes[e].is_ascii_alphanumeric() { e += 1; }
+                    let salt = &txt[k + 1..e];
+                    if !salt.is_empty() && salt != own_salt && (salt.starts_with('T') || salt.starts_with('c') || salt.starts_with('m')) {
+                        return json!({"ev": "reply", "req": 0, "cont": false, "err": "FOREIGN-TOKEN", "arg": txt});
+                    }
+                }
+            }
+            i += 1;
+        }
+    }
     let cont = reply["continues"] == json!(true);
     let err_full = reply["error"].as_str().unwrap_or("");
     let err = err_full.rsplit('.').next().unwrap_or("");
@@ -123,9 +148,93 @@ fn project(reply: &Value, creqs: &[CReq]) -> Value {
     json!({"ev": "reply", "req": req, "cont": cont, "err": err, "arg": arg})
 }
 
+fn one_conn(addr: &str, log: &crate::svc::SharedLog, rng: &mut Rng, salt: &str, maxlen: usize) -> (Vec<Value>, usize) {
+    let n = 1 + rng.below(maxlen);
+    let reqs: Vec<Value> = (0..n).map(|_| random_req(rng)).collect();
+    let creqs: Vec<CReq> = reqs.iter().enumerate().map(|(i, r)| concretise(r, i + 1, salt, 0)).collect();
+    let mut stream = Vec::new();
+    for c in &creqs {
+        stream.extend_from_slice(&c.bytes);
+        stream.push(0);
+    }
+    let k = rng.below(8);
+    let mut cuts: Vec<usize> = (0..k).map(|_| 1 + rng.below(stream.len().max(2) - 1)).collect();
+    cuts.sort();
+    cuts.dedup();
+    let mut chunks = Vec::new();
+    let mut from = 0;
+    for c in cuts {
+        if c > from && c < stream.len() {
+            chunks.push(stream[from..c].to_vec());
+            from = c;
+        }
+    }
+    chunks.push(stream[from..].to_vec());
+    let ends_stream = reqs.iter().any(|r| r["k"] == "GenUp");
+    let stok = format!("SENTINEL{}", salt);
+    let sentinel_bytes = {
+        let mut b = serde_json::to_vec(&json!({"method": "org.example.gen.Ping", "parameters": {"ping": stok}})).unwrap();
+        b.push(0);
+        b
+    };
+    let up_tok: Option<String> = reqs.iter().position(|r| r["k"] == "GenUp").map(|i| creqs[i].tok.clone());
+    if rng.chance(1, 4) {
+        std::thread::sleep(Duration::from_micros(rng.below(800) as u64));
+    }
+    let obs = run_socket(addr, log, &chunks, if ends_stream { None } else { Some(&sentinel_bytes) }, &stok, up_tok.as_deref());
+    let mut ev: Vec<Value> = Vec::new();
+    ev.push(json!({"ev": "conn", "id": salt}));
+    for r in &reqs {
+        let mut e = r.clone();
+        e.as_object_mut().unwrap().insert("ev".into(), json!("req"));
+        ev.push(e);
+    }
+    let (msgs, rest) = split_nul(&obs.out);
+    let mut saw_sentinel = false;
+    for m in &msgs {
+        match serde_json::from_slice::<Value>(m) {
+            Ok(v) => {
+                if v.to_string().contains(&stok) {
+                    saw_sentinel = true;
+                    continue;
+                }
+                ev.push(project(&v, &creqs));
+            }
+            Err(_) => ev.push(json!({"ev": "reply", "req": 0, "cont": false, "err": "NOT-JSON", "arg": lossy(m)})),
+        }
+    }
+    if !rest.is_empty() {
+        ev.push(json!({"ev": "reply", "req": 0, "cont": false, "err": "UNTERMINATED", "arg": lossy(&rest)}));
+    }
+    let upgraded_seen = obs.up_tok_seen || (up_tok.is_some() && obs.out.windows(up_tok.as_ref().unwrap().len()).any(|w| w == up_tok.as_ref().unwrap().as_bytes()));
+    let state = if obs.end == "hang" || obs.end == "connect-failed" { obs.end.as_str() } else if saw_sentinel { "open" } else if ends_stream && upgraded_seen { "upgraded" } else { "closed" };
+    let mut upok = true;
+    if state == "upgraded" {
+        let i = reqs.iter().position(|r| r["k"] == "GenUp").unwrap();
+        let mut want = Vec::new();
+        for c in &creqs[i + 1..] {
+            want.extend_from_slice(&c.bytes);
+            want.push(0);
+        }
+        upok = obs.up_rx == want;
+    }
+    ev.push(json!({"ev": "end", "state": state, "upok": upok}));
+    {
+        let mut l = log.lock().unwrap();
+        for c in &creqs {
+            l.script.remove(&c.tok);
+            l.up_rx.remove(&c.tok);
+            l.up_calls.remove(&c.tok);
+        }
+    }
+    (ev, n)
+}
+
 pub fn run(args: &[String]) {
     let conns: usize = args.iter().find_map(|a| a.strip_prefix("--conns=").and_then(|s| s.parse().ok())).unwrap_or(50);
     let maxlen: usize = args.iter().find_map(|a| a.strip_prefix("--maxlen=").and_then(|s| s.parse().ok())).unwrap_or(16);
+    let clients: usize = args.iter().find_map(|a| a.strip_prefix("--clients=").and_then(|s| s.parse().ok())).unwrap_or(1);
+    let badpeers: usize = args.iter().find_map(|a| a.strip_prefix("--badpeers=").and_then(|s| s.parse().ok())).unwrap_or(0);
     let outp = args.iter().find_map(|a| a.strip_prefix("--out=")).unwrap_or("/dev/stdout").to_string();
     let transport = args.iter().find_map(|a| a.strip_prefix("--transport=")).unwrap_or("unix").to_string();
     let dir = tmpdir("conntrace");
@@ -134,100 +243,76 @@ pub fn run(args: &[String]) {
     } else {
         format!("unix:{}/s", dir.display())
     };
-    let mut server = Server::start(&addr, 4, 16);
-    let mut rng = Rng::new(seed() * 7919 + 13);
-    let mut f = std::io::BufWriter::new(std::fs::File::create(&outp).expect("trace file"));
-    let mut nfail = 0usize;
-    let mut total_reqs = 0usize;
-    for cid in 0..conns {
-        let n = 1 + rng.below(maxlen);
-        let reqs: Vec<Value> = (0..n).map(|_| random_req(&mut rng)).collect();
-        let salt = format!("T{}", cid);
-        let creqs: Vec<CReq> = reqs.iter().enumerate().map(|(i, r)| concretise(r, i + 1, &salt, 0)).collect();
-        total_reqs += n;
-        let mut stream = Vec::new();
-        for c in &creqs {
-            stream.extend_from_slice(&c.bytes);
-            stream.push(0);
-        }
-        // random segmentation: 1..8 chunks, occasional small delays
-        let k = rng.below(8);
-        let mut cuts: Vec<usize> = (0..k).map(|_| 1 + rng.below(stream.len().max(2) - 1)).collect();
-        cuts.sort();
-        cuts.dedup();
-        let mut chunks = Vec::new();
-        let mut from = 0;
-        for c in cuts {
-            if c > from && c < stream.len() {
-                chunks.push(stream[from..c].to_vec());
-                from = c;
-            }
-        }
-        chunks.push(stream[from..].to_vec());
-        // does any request upgrade?  (the driver must know only to decide whether to use a sentinel: it looks
-        // at the request kinds it generated, not at the spec)
-        let ends_stream = reqs.iter().any(|r| r["k"] == "GenUp" );
-        let stok = format!("SENTINEL{}", salt);
-        let sentinel_bytes = {
-            let mut b = serde_json::to_vec(&json!({"method": "org.example.gen.Ping", "parameters": {"ping": stok}})).unwrap();
-            b.push(0);
-            b
-        };
-        let up_tok: Option<String> = reqs.iter().position(|r| r["k"] == "GenUp").map(|i| creqs[i].tok.clone());
-        if rng.chance(1, 4) {
-            std::thread::sleep(Duration::from_micros(rng.below(800) as u64));
-        }
-        let obs = run_socket(&addr, &server.log, &chunks, if ends_stream { None } else { Some(&sentinel_bytes) }, &stok, up_tok.as_deref());
-        let _ = writeln!(f, "{}", json!({"ev": "conn", "id": cid}));
-        for r in &reqs {
-            let mut e = r.clone();
-            e.as_object_mut().unwrap().insert("ev".into(), json!("req"));
-            let _ = writeln!(f, "{}", e);
-        }
-        let (msgs, rest) = split_nul(&obs.out);
-        let mut saw_sentinel = false;
-        for m in &msgs {
-            match serde_json::from_slice::<Value>(m) {
-                Ok(v) => {
-                    if v.to_string().contains(&stok) {
-                        saw_sentinel = true;
-                        continue;
+    let nthreads = clients + badpeers;
+    let mut server = Server::start(&addr, 4, nthreads * 2 + 16);
+    let f = std::sync::Arc::new(std::sync::Mutex::new(std::io::BufWriter::new(std::fs::File::create(&outp).expect("trace file"))));
+    let total_reqs = std::sync::Arc::new(std::sync::atomic::AtomicUsize::new(0));
+    let done = std::sync::Arc::new(std::sync::atomic::AtomicBool::new(false));
+    // misbehaving / idle peers, alive for the whole run
+    let mut bad = Vec::new();
+    for b in 0..badpeers {
+        let addr = addr.clone();
+        let done = done.clone();
+        bad.push(std::thread::spawn(move || {
+            let mut rng = Rng::new(seed() * 104729 + b as u64);
+            while !done.load(std::sync::atomic::Ordering::SeqCst) {
+                let s = AnyStream::connect(&addr);
+                if let Ok(mut s) = s {
+                    match b % 4 {
+                        0 => {
+                            // idle peer: connects, sends nothing, stays
+                            while !done.load(std::sync::atomic::Ordering::SeqCst) {
+                                std::thread::sleep(Duration::from_millis(5));
+                            }
+                        }
+                        1 => {
+                            // connects, sends nothing, leaves
+                            std::thread::sleep(Duration::from_millis(rng.below(20) as u64));
+                        }
+                        2 => {
+                            // disconnects in the middle of a message
+                            let _ = s.write_all(br#"{"method":"org.example.gen.Ping","parameters":{"pi"#);
+                            std::thread::sleep(Duration::from_millis(rng.below(10) as u64));
+                        }
+                        _ => {
+                            // sends garbage, then half of a valid message, and waits to be thrown out
+                            let _ = s.write_all(b"\xff{{{\0");
+                            std::thread::sleep(Duration::from_millis(rng.below(10) as u64));
+                        }
                     }
-                    let _ = writeln!(f, "{}", project(&v, &creqs));
-                }
-                Err(_) => {
-                    let _ = writeln!(f, "{}", json!({"ev": "reply", "req": 0, "cont": false, "err": "NOT-JSON", "arg": lossy(m)}));
                 }
             }
-        }
-        if !rest.is_empty() {
-            let _ = writeln!(f, "{}", json!({"ev": "reply", "req": 0, "cont": false, "err": "UNTERMINATED", "arg": lossy(&rest)}));
-        }
-        // observed end state
-        let upgraded_seen = obs.up_tok_seen || (up_tok.is_some() && obs.out.windows(up_tok.as_ref().unwrap().len()).any(|w| w == up_tok.as_ref().unwrap().as_bytes()));
-        let state = if obs.end == "hang" { "hang" } else if saw_sentinel { "open" } else if ends_stream && upgraded_seen { "upgraded" } else { "closed" };
-        // upgraded payload check (bytes): everything after the upgrading request's NUL
-        let mut upok = true;
-        if state == "upgraded" {
-            let i = reqs.iter().position(|r| r["k"] == "GenUp").unwrap();
-            let mut want = Vec::new();
-            for c in &creqs[i + 1..] {
-                want.extend_from_slice(&c.bytes);
-                want.push(0);
-            }
-            upok = obs.up_rx == want;
-            if !upok {
-                nfail += 0; // reported through the trace (upok=false is rejected by the spec)
-            }
-        }
-        let _ = writeln!(f, "{}", json!({"ev": "end", "state": state, "upok": upok}));
-        let mut l = server.log.lock().unwrap();
-        l.script.clear();
-        l.up_rx.clear();
-        l.up_calls.clear();
+        }));
     }
-    let _ = f.flush();
+    let per = (conns + clients - 1) / clients;
+    let mut hs = Vec::new();
+    for c in 0..clients {
+        let addr = addr.clone();
+        let log = server.log.clone();
+        let f = f.clone();
+        let total_reqs = total_reqs.clone();
+        hs.push(std::thread::spawn(move || {
+            let mut rng = Rng::new(seed() * 7919 + 13 + c as u64 * 1_000_003);
+            for k in 0..per {
+                let salt = format!("T{}q{}", c, k);
+                let (ev, n) = one_conn(&addr, &log, &mut rng, &salt, maxlen);
+                total_reqs.fetch_add(n, std::sync::atomic::Ordering::Relaxed);
+                let mut g = f.lock().unwrap();
+                for e in ev {
+                    let _ = writeln!(g, "{}", e);
+                }
+            }
+        }));
+    }
+    for h in hs {
+        let _ = h.join();
+    }
+    done.store(true, std::sync::atomic::Ordering::SeqCst);
+    for b in bad {
+        let _ = b.join();
+    }
+    let _ = f.lock().unwrap().flush();
     server.stop();
     let _ = std::fs::remove_dir_all(&dir);
-    emit(&json!({"summary": true, "conns": conns, "requests": total_reqs, "failures": nfail, "executions": conns}));
+    emit(&json!({"summary": true, "conns": per * clients, "requests": total_reqs.load(std::sync::atomic::Ordering::Relaxed), "failures": 0, "executions": per * clients}));
 }
